@@ -813,6 +813,19 @@ func (c *EvalCtx) call(v *ECall) TV {
 		need(1)
 		a := args()
 		return tvTerm(c.x.sliceArr(a[0]))
+	case "appendAll":
+		// appendAll(s, t): the slice append(s, t...) as produced by the executor
+		need(2)
+		a := args()
+		if a[0].Sort != a[1].Sort || !strings.HasPrefix(string(a[0].Sort), "Sl$") {
+			c.fail("appendAll needs two slices of the same type")
+		}
+		name := "append$" + sortMangle(a[0].Sort)
+		if _, ok := c.prog.U.Funs[name]; !ok {
+			d := c.prog.U.Datatypes[a[0].Sort]
+			c.prog.declAppend(name, a[0].Sort, d.Fields[0].Sort)
+		}
+		return tvTerm(SymApp(name, a[0].Sort, a...))
 	case "keys":
 		// keys(m): the set of present keys of a Go map
 		need(1)
